@@ -339,6 +339,7 @@ def schema_to_struct_code(
         if schema.get("type", "object") == "object"
         else ["wrapped"]
     )
+    required = list(required) if required is not None else None
     the_type = schema.get("type", "object" if "properties" in schema else None)
 
     if the_type == "object":
